@@ -49,6 +49,9 @@ var gens = []gen{
 	{"Translate(3,-2)", func(m canvas.Matrix) canvas.Matrix { return m.Translate(3, -2) }, oracle.AffTranslate(3, -2)},
 	{"ReflectX()", func(m canvas.Matrix) canvas.Matrix { return m.ReflectX() }, oracle.AffScale(-1, 1)},
 	{"ReflectY()", func(m canvas.Matrix) canvas.Matrix { return m.ReflectY() }, oracle.AffScale(1, -1)},
+	// reflections in the diagonals: orientation reversing with an exactly zero diagonal
+	{"Mul([0 1 0; 1 0 0])", func(m canvas.Matrix) canvas.Matrix { return m.Mul(canvas.Matrix{{0, 1, 0}, {1, 0, 0}}) }, oracle.Aff{A: 0, B: 1, C: 1, D: 0}},
+	{"Mul([0 -1 0; -1 0 0])", func(m canvas.Matrix) canvas.Matrix { return m.Mul(canvas.Matrix{{0, -1, 0}, {-1, 0, 0}}) }, oracle.Aff{A: 0, B: -1, C: -1, D: 0}},
 }
 
 // nWords(k) = number of generator words of length <= k.
@@ -354,6 +357,28 @@ func twoSegPaths() ([][]oracle.Subpath, []string) {
 			}
 		}
 	}
+	aps, anames := arcPairPaths()
+	ps, names = append(ps, aps...), append(names, anames...)
+	return ps, names
+}
+
+// arcPairPaths: two arcs with the same radii and another axis rotation (also with a line between).
+func arcPairPaths() ([][]oracle.Subpath, []string) {
+	var ps [][]oracle.Subpath
+	var names []string
+	P := func(x, y float64) oracle.Pt { return oracle.Pt{X: x, Y: y} }
+	for _, rots := range [][2]float64{{0, 60}, {30, 120}, {60, 0}} {
+		for f := 0; f < 2; f++ {
+			a1 := oracle.MkArc(P(0, 0), 5, 2, rots[0], false, f == 1, P(6, 1.5))
+			a2 := oracle.MkArc(P(6, 1.5), 5, 2, rots[1], false, f == 1, P(7.5, 7))
+			ps = append(ps, []oracle.Subpath{oracle.Chain(false, a1, a2)})
+			names = append(names, fmt.Sprintf("arc(5,2,rot%g)+arc(5,2,rot%g) sweep=%v", rots[0], rots[1], f == 1))
+			l := oracle.MkLine(P(6, 1.5), P(7, 1.5))
+			a3 := oracle.MkArc(P(7, 1.5), 5, 2, rots[1], false, f == 1, P(8.5, 7))
+			ps = append(ps, []oracle.Subpath{oracle.Chain(false, a1, l, a3)})
+			names = append(names, fmt.Sprintf("arc(5,2,rot%g)+line+arc(5,2,rot%g) sweep=%v", rots[0], rots[1], f == 1))
+		}
+	}
 	return ps, names
 }
 
@@ -549,11 +574,12 @@ func lawsFamily(depth int) fw.Family {
 func families(tier string) []fw.Family {
 	fs := []fw.Family{
 		transformFamily("segment-menu x matrix words <= 2", singleSegPaths, 2),
+		transformFamily("arcs of equal radii and different rotation in one path x matrix words <= 2", arcPairPaths, 2),
 		lawsFamily(2),
 	}
 	if tier == "thorough" {
 		fs = append(fs,
-			transformFamily("two-segment paths (menu12^2, open/closed, + line subpath) x matrix words <= 2", twoSegPaths, 2),
+			transformFamily("two-segment paths (menu12^2, open/closed, + line subpath; arcs of equal radii and different rotation) x matrix words <= 2", twoSegPaths, 2),
 			transformFamily("segment-menu x matrix words <= 3", singleSegPaths, 3),
 		)
 	}
